@@ -794,6 +794,36 @@ def c13_text(t, dump, tier):
 _RANGE_IDX = {}
 
 
+def permuting_order_hook(c, state):
+    """map_order_hook that makes the order of every executed map range a choice of the path (all permutations up to 4 entries,
+    identity / reversal / rotation / adjacent transpositions above), one deviation per path; state['deviated'] tells whether
+    this path iterates some map in another order than insertion order"""
+    site_n = collections.Counter()
+
+    def order_hook(M_, entries, ins, fr):
+        site = range_site(fr.fn, ins)
+        site_n[site] += 1
+        n = len(entries)
+        if n > 8:
+            raise Unsupported('map with %d entries iterated (bound 8)' % n)
+        if state.get('deviated'):
+            return entries
+        if n <= 4:
+            perms = list(itertools.permutations(range(n)))
+        else:
+            ident = list(range(n))
+            perms = [tuple(ident), tuple(reversed(ident)), tuple(ident[1:] + ident[:1])]
+            for i in range(n - 1):
+                q = list(ident)
+                q[i], q[i + 1] = q[i + 1], q[i]
+                perms.append(tuple(q))
+        k = c.choose_free(len(perms), 'order@%s#%d' % (site, site_n[site]))
+        if k != 0:
+            state['deviated'] = True
+        return [entries[i] for i in perms[k]]
+    return order_hook
+
+
 def range_site(fn, ins):
     """stable name of a map-range site: function + ordinal of the Range instruction inside it"""
     key = fn['id']
